@@ -489,6 +489,63 @@ def run(ctx):
                                'contents when keep_braced_groups applies (minlen 0 keeps every group), which raises '
                                'TypeError for None' % short(d_, 30), construct='%s: group delimiters %s' % (mod_.relpath, short(d_, 30)))
 
+    from ..grules import short_circuit_facts as _scf7
+    # ---- R07q: nodeargd of a node the converter is handed may be None
+    ctx.rule('R07q', 'the converter class reads `<node>.nodeargd.<x>` only behind a test that nodeargd is set (every site of '
+                     'latex2text/__init__.py does: `node.nodeargd and node.nodeargd.argnlist`): a node produced by error '
+                     'recovery (an unterminated \\verb) or by a specification without arguments has nodeargd None', 4)
+    n_na = 0
+    for q_, f_ in sorted(m.functions.items()):
+        for x_ in ast.walk(f_):
+            if not (isinstance(x_, ast.Attribute) and isinstance(x_.value, ast.Attribute) and x_.value.attr == 'nodeargd'
+                    and isinstance(x_.ctx, ast.Load)):
+                continue
+            base = unparse(x_.value)
+            atoms = set()
+            for t_, p_ in list(atomic_facts(x_)) + list(_scf7(x_)):
+                for a_, ap_ in symex._atoms(t_, p_):
+                    atoms.add((unparse(a_), ap_))
+            okq = any(ap_ and t_ in (base, base + ' is not None') for t_, ap_ in atoms) or \
+                any((not ap_) and t_ in (base + ' is None', 'not ' + base) for t_, ap_ in atoms)
+            n_na += 1
+            ctx.decide('R07q', okq, m, x_, '%s behind a test of %s' % (short(x_, 40), base),
+                       '%s reads %s with no test that %s is set: for a node whose arguments could not be parsed (tolerant '
+                       'recovery of `\\verb|abc and more`) nodeargd is None and AttributeError escapes latex_to_text'
+                       % (q_, short(x_, 40), base), construct='%s: %s' % (q_, short(x_, 40)))
+    if n_na < 4:
+        ctx.unknown('R07q', m, None, 'only %d reads through nodeargd found in the converter' % n_na, construct='nodeargd reads')
+
+    # ---- R07p: None entries of a node list
+    ctx.rule('R07p', 'nodelist_to_text: the element of the list (which may be None: replacement callables pass [optarg] for an '
+                     'absent argument, and node_to_text(None) is \'\') is dereferenced only behind `node is not None` or behind '
+                     '`self._is_bare_macro_node(prev_node)` (true only after a real previous node): a cheaper test put first '
+                     'makes `node.isNodeType` run on the None of a one-element list', 1)
+    nlt = meths.get('nodelist_to_text')
+    if nlt is None:
+        raise AnalysisError('anchor vanished: LatexNodes2Text.nodelist_to_text')
+    n_dn = 0
+    for lp_ in [l_ for l_ in iter_own(nlt) if isinstance(l_, ast.For) and isinstance(l_.target, ast.Name)]:
+        v_ = lp_.target.id
+        for x_ in ast.walk(lp_):
+            if not (isinstance(x_, ast.Attribute) and isinstance(x_.value, ast.Name) and x_.value.id == v_
+                    and isinstance(x_.ctx, ast.Load)):
+                continue
+            n_dn += 1
+            atoms = set()
+            for t_, p_ in list(atomic_facts(x_)) + list(_scf7(x_)):
+                for a_, ap_ in symex._atoms(t_, p_):
+                    atoms.add((unparse(a_), ap_))
+            okn = any(ap_ and (t_ == '%s is not None' % v_ or t_ == v_ or t_.startswith('self._is_bare_macro_node(')
+                               or t_.startswith('isinstance(%s,' % v_)) for t_, ap_ in atoms) or \
+                any((not ap_) and t_ == '%s is None' % v_ for t_, ap_ in atoms)
+            ctx.decide('R07p', okn, m, x_, '%s guarded' % short(x_, 30),
+                       'nodelist_to_text evaluates %s under [%s] only: for a list whose element is None (\\emph\\exercise: the '
+                       'replacement of \\exercise renders [optarg] with optarg None) this raises AttributeError'
+                       % (short(x_, 30), ' & '.join(sorted(t_ for t_, ap_ in atoms if ap_))[:100]),
+                       construct='nodelist_to_text: %s' % short(x_, 30))
+    if not n_dn:
+        ctx.unknown('R07p', m, nlt, 'no dereference of the list element found', construct='nodelist_to_text: element dereference')
+
     # ---- R07n: formatting a table pattern cannot raise out of the converter
     ctx.rule('R07n', 'a `%` substitution into a replacement pattern that is not a literal (simplify_repl from a table) is '
                      'inside a try whose handlers cover TypeError, ValueError and KeyError: a pattern with more or fewer '
